@@ -7,7 +7,7 @@ import ast
 from ..interp import alternatives, analyze, truth
 from ..model import AnalysisError, Model, unparse
 from ..report import Ctx, where
-from ..terms import show, walk
+from ..terms import NONE, show, walk
 from .shape_rules import cache_root
 
 SLOTS = {"_scheme", "_netloc", "_path", "_query", "_fragment", "_cache"}
@@ -127,8 +127,9 @@ def _subst(t, bind):
 
 
 def occurrences(t, target, parent=None, out=None):
+    """Parents of every occurrence of `target` (a term, or a predicate on terms) in t."""
     out = out if out is not None else []
-    if t == target:
+    if (target(t) if callable(target) else t == target):
         out.append(parent)
         return out
     if isinstance(t, tuple):
@@ -136,6 +137,12 @@ def occurrences(t, target, parent=None, out=None):
             if isinstance(x, tuple):
                 occurrences(x, target, t if (t and isinstance(t[0], str)) else parent, out)
     return out
+
+
+def _is_cache(t):
+    while t[0] == "mut":
+        t = t[1]
+    return t[0] == "attr" and t[2] == "_cache"
 
 
 def im3(ctx: Ctx):
@@ -151,7 +158,15 @@ def im3(ctx: Ctx):
     if not mut_props:
         ctx.note("IM3: no memoised property of mutable type")
     for pf in mut_props:
-        target = ("attr", ("param", "self"), pf.name)
+        def target(t, name=pf.name):
+            """The memoised object in any spelling: the accessor, or the entry of a URL's cache it is stored under."""
+            if not (isinstance(t, tuple) and t and isinstance(t[0], str)):
+                return False
+            if t == ("attr", ("param", "self"), name):
+                return True
+            if t[0] == "sub" and t[2] == ("const", name) and _is_cache(t[1]):
+                return True
+            return t[0] == "call" and t[1][0] == "attr" and t[1][2] == "get" and _is_cache(t[1][1]) and bool(t[2]) and t[2][0] == ("const", name)
         for fi in pkg_funcs(model):
             r = analyze(model, fi)
             seen = set()
@@ -168,10 +183,14 @@ def im3(ctx: Ctx):
                             if key in seen:
                                 continue
                             seen.add(key)
-                            if e.kind == "attr" and parent is None:
-                                continue      # the load itself
+                            if e.kind in ("attr", "sub", "call", "cond") and parent is None:
+                                continue      # the load itself / a truthiness test
+                            if fi.name == pf.name and e.kind == "return" and parent is None:
+                                continue      # the accessor handing its entry to the property layer
                             ok = parent is not None and parent[0] == "call" and parent[1][0] in ("ext", "builtin", "global") \
-                                and parent[1][-1] in COPYING and target in parent[2]
+                                and parent[1][-1] in COPYING and any(target(a) for a in parent[2])
+                            # presence test of the cache entry
+                            ok = ok or (parent is not None and parent[0] == "cmp" and parent[1] in ("Is", "IsNot") and NONE in parent[2:4])
                             ctx.instance(rule)
                             ctx.ob(rule, fi.qual, f"use of self.{pf.name} in {show(parent)[:80] if parent else e.kind}", ok,
                                    f"the memoised {unparse(pf.node.returns)} `{pf.name}` is used other than as the argument of a copying "
@@ -667,10 +686,30 @@ def _inherited_ok(model, e, v, foreign):
     deps = CacheDeps(model)
     cache_t = ("attr", src, "_cache")
     excluded = None
-    if v[0] == "comp" and v[1] == "dict" and len(v[2]) == 1 and v[2][0][0] == "tuple" and len(v[2][0][1]) == 2 and v[3] == (cache_t,):
+    snapshots = (cache_t, ("call", ("builtin", "dict"), (cache_t,), ()), ("call", ("attr", cache_t, "copy"), (), ()))
+    included = None
+    if v[0] == "comp" and v[1] == "dict" and len(v[2]) == 1 and v[2][0][0] == "tuple" and len(v[2][0][1]) == 2 and len(v[3]) == 1 \
+            and v[3][0] not in snapshots:
+        # include-list: `{k: c[k] for k in KEYS if k in c}` - exactly the listed keys are inherited
         key, val = v[2][0][1]
         filters = v[4] if len(v) > 4 else ()
-        if key[0] == "elem" and val == ("sub", cache_t, key):
+        if key[0] == "elem" and key[1] == v[3][0] and val[0] == "sub" and val[1] in snapshots and val[2] == key and \
+                all(f_[0] == "cmp" and f_[1] == "In" and f_[2] == key and f_[3] in snapshots for f_ in filters):
+            try:
+                included = set(Folder(model).fold(v[3][0]))
+            except (CannotFold, TypeError):
+                return False, "the set of inherited keys cannot be folded"
+            if not all(isinstance(k, str) for k in included):
+                return False, "the inherited keys are not constant strings"
+            stale = sorted(k for k in included if deps.of_key(k) & changed)
+            if stale:
+                return False, f"inherited although their definition reads a changed slot ({sorted(changed)}): {stale[:6]}"
+            return True, ""
+    if v[0] == "comp" and v[1] == "dict" and len(v[2]) == 1 and v[2][0][0] == "tuple" and len(v[2][0][1]) == 2 and len(v[3]) == 1 \
+            and v[3][0] in snapshots:
+        key, val = v[2][0][1]
+        filters = v[4] if len(v) > 4 else ()
+        if key[0] == "elem" and val[0] == "sub" and val[1] in snapshots and val[2] == key:
             excluded = set()
             for f_ in filters:
                 if f_[0] == "cmp" and f_[1] == "NotIn" and f_[2] == key:
@@ -788,3 +827,118 @@ def _handed_over_ok(model, e, owner):
         return False
     deps = CacheDeps(model)
     return not any(deps.of_key(k) & changed for k in keys)
+
+
+def im14(ctx: Ctx):
+    """IM14: one definition per cache key. The property layer stores what an accessor returns under the accessor's name; a
+    helper that fills several entries at once (`self._cache[k] = ...` for sibling keys) writes the same keys directly. If the
+    accessor of such a key returns anything but the entry the helper stored, the key has two values and whichever of the
+    co-filled accessors is read first on an object decides which one every later read - on a memoised, shared object, every
+    other caller's too - sees."""
+    from .shape_rules import cache_stores, is_self_cache
+    model = ctx.model
+    rule = "IM14"
+    ctx.rule(rule, floor=0, what="an accessor whose cache entry a co-filling helper writes returns exactly that entry")
+    methods = model.methods("_url", "URL")
+    fillers = {}
+    for name, fi in methods.items():
+        stores, always, _r = cache_stores(model, fi)
+        for k in always:
+            if name != k and not name.startswith("__") and k in methods and methods[k].memo == "cached_property":
+                fillers.setdefault(k, []).append((fi, {v for v, _s, root in stores.get(k, ()) if is_self_cache(root)}))
+    n = 0
+    for k, fl in sorted(fillers.items()):
+        P = methods[k]
+        tr = lambda kind, t: kind == "call" and t[1][0] == "attr" and t[1][1] == ("param", "self")
+        r = analyze(model, P, trace=tr, trace_key="selfcalls")
+        ctx.functions.add(P.qual)
+        names = {fi.name for fi, _v in fl}
+        stored = set().union(*(v for _fi, v in fl))
+        bad = []
+        for s, v, node in r.returns:
+            own = v[0] == "sub" and is_self_cache(v[1]) and v[2] == ("const", k)
+            if own or v in stored:
+                continue
+            called = any(t[0] == "call" and t[1][2] in names for t in s.trace)
+            if not called:
+                raise AnalysisError(f"IM14: {P.qual} and {sorted(names)} define cache key {k!r} independently ({show(v)[:50]}): "
+                                    "agreement of the two definitions is not decidable here (unknown idiom)")
+            bad.append((v, node))
+        n += 1
+        ctx.instance(rule)
+        v0, node0 = bad[0] if bad else (None, P.node)
+        ctx.ob(rule, P.qual, f"value of {k!r} beside the entry {sorted(names)[0]} stores", not bad,
+               f"{P.name} returns {show(v0)[:50] if bad else ''} on some path although {sorted(names)[0]}() has stored a different value "
+               f"under {k!r}: the property layer caches the accessor's result under the same key, so the value of {k!r} depends "
+               "on which of the co-filled accessors was read first", where(P, node0), sample=f"self._cache[{k!r}] as stored by the helper")
+    ctx.instance(rule)
+    ctx.ob(rule, "<class URL>", "co-filled cache keys", True, sample=f"{n} key(s) with a co-filling helper", nontrivial=False)
+
+
+SNAPSHOTS = {"dict", "list", "tuple", "sorted", "frozenset", "set", "copy"}      # one C-level pass under the GIL
+
+
+def _live_cache_iteration(res):
+    """(node, iterable term) for every Python-level iteration - a for loop or a comprehension - whose iterable is a URL's
+    cache dict itself or a live view of it (.items() / .keys() / .values()), not a snapshot taken in one C-level call."""
+    def live(t):
+        while t[0] == "call" and t[1][0] == "attr" and t[1][2] in ("items", "keys", "values") and not t[2]:
+            t = t[1][1]
+        while t[0] == "mut":
+            t = t[1]
+        return t[0] == "attr" and t[2] == "_cache"
+    out, seen = [], set()
+    for e in res.events:
+        for val in e.data.values():
+            if not (isinstance(val, tuple) and val):
+                continue
+            for t in (walk(val) if isinstance(val[0], str) else [x for v in val if isinstance(v, tuple) and v and isinstance(v[0], str) for x in walk(v)]):
+                its = ()
+                if t[0] == "elem":
+                    its = (t[1],)
+                elif t[0] == "comp":
+                    its = t[3]
+                for it in its:
+                    if live(it) and it not in seen:
+                        seen.add(it)
+                        out.append((e.node, it))
+    return out
+
+
+_IM15_EXAMPLES = (
+    ("def f(self):\n    new = object.__new__(URL)\n    new._cache = {k: v for k, v in self._cache.items() if k in KEEP}\n    return new\n", 1),
+    ("def f(self):\n    c = self._cache\n    out = {}\n    for k in c:\n        out[k] = c[k]\n    return out\n", 1),
+    ("def f(self):\n    c = dict(self._cache)\n    return {k: v for k, v in c.items() if k in KEEP}\n", 0),
+    ("def f(self):\n    c = self._cache\n    return {k: c[k] for k in KEEP if k in c}\n", 0),
+)
+
+
+def im15(ctx: Ctx):
+    """IM15: the per-object cache of a URL is filled lazily by whichever thread reads an accessor first, so on a shared URL it can
+    grow at any moment. Iterating it in Python code (a for loop or comprehension over the dict, or over .items()/.keys()/
+    .values()) raises `RuntimeError: dictionary changed size during iteration` when another thread's first read of any cached
+    property lands between two steps. Reading single keys, or iterating a snapshot made by one C-level call (dict(c), c.copy(),
+    list(c), tuple(c)) is what a sequential run and a concurrent one have in common."""
+    from ..model import FuncInfo
+    model = ctx.model
+    rule = "IM15"
+    ctx.rule(rule, floor=0, what="no Python-level iteration over a live cache dict (other threads fill it concurrently)")
+    for i, (src, want) in enumerate(_IM15_EXAMPLES):
+        node = ast.parse(src).body[0]
+        got = len(_live_cache_iteration(analyze(model, FuncInfo("_url", "URL", f"<im15-example-{i}>", node))))
+        if got != want:
+            raise AnalysisError(f"IM15 self-check: {got} live iteration(s) found in {src!r}, expected {want}")
+    n = 0
+    for fi in pkg_funcs(model):
+        if fi.module != "_url":
+            continue
+        for node, it in _live_cache_iteration(analyze(model, fi)):
+            n += 1
+            ctx.instance(rule)
+            ctx.ob(rule, fi.qual, f"iteration over {show(it)[:50]}", False,
+                   f"{show(it)[:50]} is iterated in Python code while other threads may add entries to it (every first read of a cached "
+                   "property does): `RuntimeError: dictionary changed size during iteration` on a shared URL", where(fi, node),
+                   sample="single-key reads or a one-call snapshot")
+    ctx.instance(rule)
+    ctx.ob(rule, "<module _url>", "iterations over cache dicts", True, sample=f"{n} live iteration(s); self-check on {len(_IM15_EXAMPLES)} built-in examples",
+           nontrivial=False)
